@@ -83,21 +83,23 @@ func (fp *sFieldPost) termPost(t string) *sTermPost {
 // ---- generator
 
 type gField struct {
-	name     string
-	terms    []string
-	tv       bool // locations possible
-	dv       bool
-	store    bool // stored value possible
-	maxLocs  int
-	multi    bool   // the field may occur twice in a document
-	maxOcc   int    // (with multi) up to this many occurrences (default 2)
-	always   bool   // field present in every document (no presence bit)
-	allTerm  bool   // every term present (no has bit)
-	fixFreq  bool   // frequency is the constant 1 (no symbolic number)
-	fixLocs  bool   // every hit has exactly maxLocs locations
-	shape    bool   // geo-shape field: its encoded shape is one more doc-value term of the document
-	comp     bool   // composite field (delivered through VisitComposite, like bleve's _all)
-	locField string // the locations of its hits name this (existing) field instead of the field itself
+	name      string
+	terms     []string
+	tv        bool // locations possible
+	dv        bool
+	store     bool // stored value possible
+	maxLocs   int
+	multi     bool     // the field may occur twice in a document
+	maxOcc    int      // (with multi) up to this many occurrences (default 2)
+	always    bool     // field present in every document (no presence bit)
+	allTerm   bool     // every term present (no has bit)
+	fixFreq   bool     // frequency is the constant 1 (no symbolic number)
+	fixLocs   bool     // every hit has exactly maxLocs locations
+	shape     bool     // geo-shape field: its encoded shape is one more doc-value term of the document
+	comp      bool     // composite field (delivered through VisitComposite, like bleve's _all)
+	locField  string   // the locations of its hits name this (existing) field instead of the field itself
+	noTVOpt   bool     // locations are delivered although the field's options lack IncludeTermVectors (bleve's default composite field)
+	locFields []string // (with maxLocs > 1) the i-th location of a hit names locFields[i%len]; "" = the field itself
 }
 
 type gCfg struct {
@@ -242,11 +244,15 @@ func vGenBatch(cfg gCfg) ([]index.Document, *sSpec) {
 						if cfg.maxAP > 0 {
 							nap = vChoice(cfg.prefix+"nap"+lt, cfg.maxAP+1)
 						}
-						loc := vLoc{field: gf.locField, pos: int(g.num("pos"+lt, 1<<63)), start: int(g.num("st"+lt, 1<<63)), end: int(g.num("en"+lt, 1<<63)), ap: g.aps(lt, nap)}
+						locF := gf.locField
+						if len(gf.locFields) > 0 {
+							locF = gf.locFields[l%len(gf.locFields)]
+						}
+						loc := vLoc{field: locF, pos: int(g.num("pos"+lt, 1<<63)), start: int(g.num("st"+lt, 1<<63)), end: int(g.num("en"+lt, 1<<63)), ap: g.aps(lt, nap)}
 						vt.locs = append(vt.locs, loc)
 						lf := gf.name
-						if gf.locField != "" {
-							lf = gf.locField
+						if locF != "" {
+							lf = locF
 						}
 						accs[ti].locs = append(accs[ti].locs, sLoc{field: lf, pos: uint64(loc.pos), start: uint64(loc.start), end: uint64(loc.end), ap: loc.ap})
 					}
@@ -265,7 +271,7 @@ func vGenBatch(cfg gCfg) ([]index.Document, *sSpec) {
 					vAssume(len(terms) > 0)
 				}
 				opts := index.IndexField
-				if gf.tv {
+				if gf.tv && !gf.noTVOpt {
 					opts |= index.IncludeTermVectors
 				}
 				if gf.dv {
